@@ -605,8 +605,9 @@ inline bool plan_effect(Model const& M, ModelTraits const& T, Op const& op, Effe
 		if(!T.serialization || op.file < 0 || op.file >= NFILE || op.arch < 0 || op.arch > 2) return false;
 		MView v;
 		if(!model_view(M, T, op.da, op.a, op.ca, v)) return false;
-		if(op.var < 0 || op.var > 1) return false;
-		if(op.var == 0 && op.ca.n != 0) return false;  // var 0 saves the owning array itself
+		if(op.var < 0 || op.var > 2) return false;
+		if(op.var != 1 && op.ca.n != 0) return false;  // var 0 saves the owning array itself, var 2 the same array re-indexed to base 1
+		if(op.var == 2 && (v.count() == 0 || T.static_arrays)) return false;
 		if(v.count() == 0 && op.var == 1) return false;
 		if(v.count() == 0) {  // empty arrays: only regular empties (leading extent zero), see I4
 			MArr const& a0 = M.at(op.da, op.a);
@@ -618,14 +619,15 @@ inline bool plan_effect(Model const& M, ModelTraits const& T, Op const& op, Effe
 		e.file_next         = MFile{};
 		e.file_next.valid    = true;
 		e.file_next.arch     = op.arch;
-		e.file_next.is_array = op.var == 0;
+		e.file_next.is_array = op.var != 1;
+		e.file_next.base     = op.var == 2 ? 1 : 0;
 		e.file_next.D        = v.D;
 		for(int k = 0; k < v.D; ++k) e.file_next.n[k] = v.n[k];
 		e.file_next.v = gather(M.at(op.da, op.a), v);
 		e.elems       = v.count();
 		static char const* an[] = {"text", "binary", "xml"};
 		var(an[op.arch]);
-		var(op.var ? "view" : "array");
+		var(op.var == 1 ? "view" : op.var == 2 ? "reindexed-array" : "array");
 		return true;
 	}
 	case O_LOAD: {
@@ -639,10 +641,11 @@ inline bool plan_effect(Model const& M, ModelTraits const& T, Op const& op, Effe
 			if(op.ca.n != 0 || op.da != f.D) return false;
 			if(!slot_ok(op.da, op.a, T) || !M.at(op.da, op.a).alive) return false;
 			MArr const& a0   = M.at(op.da, op.a);
-			bool const  same = dims_equal(a0, f.D, f.n);
+			bool const  same = dims_equal(a0, f.D, f.n) && f.base == 0;
 			if(T.static_arrays && !same) return false;
 			MArr& a = tgt(0, op.da, op.a);
 			var(rel_name(a0, f.count(), same));
+			if(f.base) var("reindexed");
 			set_dims(a, f.D, f.n);
 			a.v     = f.v;
 			e.elems = f.count();
